@@ -28,7 +28,19 @@ pub mod trk;
 pub mod c19;
 
 pub fn dispatch(id: &str, tier: Tier, replay: Option<&str>) -> i32 {
-    let _ = replay;
+    if let Some(path) = replay {
+        let txt = std::fs::read_to_string(path).unwrap_or_else(|e| machinery_error(&format!("cannot read replay file {path}: {e}")));
+        let v: serde_json::Value = serde_json::from_str(&txt).unwrap_or_else(|e| machinery_error(&format!("replay file {path} does not parse: {e}")));
+        println!("replaying {path}: key={} what={}", v["key"], v["what"]);
+        match id {
+            "C10" => return c10::replay(&v),
+            _ => {
+                // the other checks re-run their (deterministic, exhaustive) enumeration, which contains the
+                // recorded case, and report whether its key still occurs
+                println!("property {id}: the recorded case is part of the check's enumeration; re-running it");
+            }
+        }
+    }
     if id == "SELFTEST" {
         let v = selftest::channel_shim_selftest(tier);
         println!("{}", serde_json::to_string_pretty(&v).unwrap());
